@@ -786,7 +786,18 @@ func recordedNameDecidesDeletion(r *an.Run, rule string) {
 					sawLookup = true
 				}
 				resetBehindRecord := func(val ssa.Value, at *ssa.BasicBlock) bool {
-					if s, isc := an.ConstString(val); isc && s == "" {
+					// the guess itself, made although the record was found
+					isGuess := false
+					if gc, ok := val.(*ssa.Call); ok {
+						if k := an.StaticCallee(gc); k != nil && an.InModule(k) && k != uses {
+							for _, hh := range helperGroup(k, 1) {
+								if len(an.CallsTo(hh, "path.Base", "path/filepath.Base")) > 0 {
+									isGuess = true
+								}
+							}
+						}
+					}
+					if s, isc := an.ConstString(val); isc && s == "" || isGuess {
 						for _, t := range found {
 							if t.Dominates(at) {
 								return true
